@@ -20,7 +20,7 @@ CLAIMED = {
          'Enumeration = reference architectures (sound, complete, one each), counts and imputation ratio are run-time contracts on get_all_discrete_x / get_n_valid_designs over the corpus with and without one fixed variable (bounded); the scenario-merging numpy code is outside the deductive reach. Also proved: get_imputation_ratio and HierarchyAnalyzerBase.imputation_ratio are the quotient of declared size and valid count (1 when there is no valid design), over uninterpreted counts.',
          NOTE, TECH),
  'C05': ('other',
-         'History-independence: after every operation history (length 2 quick / 3 thorough over decode, enumerate, statistics, mutate instance, pickle, fix, free) the processor must be observationally equal to a fresh one (bounded, exhaustive over the history alphabet); frame clauses of the analyzer proved where reached.',
+         'History-independence: after every operation history (length 2 quick / 3 thorough over decode, enumerate, statistics, mutate instance, pickle, fix, free) the processor must be observationally equal to a fresh one (bounded, exhaustive over the history alphabet); frame clauses of the analyzer proved where reached. Also proved (shared with C15): after every fix_des_var and free_des_var the stored combination mask is the mask of the current fixed values, so no fix/free history leaves a stale mask behind.',
          NOTE, TECH),
  'C06': ('other',
          'Proved for all graphs: the confirmed-pair test (get_confirmed_incompatibility_edges), the first half of get_mod_nodes_remove_incompatibilities (which nodes go, when the graph is infeasible) and the upstream search get_incompatibility_deriving_nodes (nothing that necessarily derives the target is missed, nothing else is collected) and get_deriving_in_edges (exactly the in-edges that still derive a node given what was removed). Enforcement, no-over-pruning and infeasible-stays-infeasible are contracts evaluated on every node of the choice tree of the INC corpus (bounded).',
